@@ -21,7 +21,7 @@ RULE = ("fitted problems x backends x op-lists (with repetition) over covariance
         "contains >= 2 excursion-type queries (profile, contour, asymmetric errors) and a fixed or limited parameter, or the same excursion "
         "twice; distinct by case hash")
 ASSUMPTIONS = [
-    "invariant against the snapshot after do_fit: |dp| <= 0.02 sigma, |dcost| <= 1e-2, |dsigma|/sigma <= 0.02, did_fit exact, minimizer "
+    "invariant against the snapshot after do_fit: |dp| <= 0.05 sigma (= 1e-3 in cost, the minimizer tolerance), |dcost| <= 1e-2, |dsigma|/sigma <= 0.02 (0.05 scipy), did_fit exact, minimizer "
     "parameter values == graph parameter values (1e-9 relative), cost_function_value == reference cost at the held parameter values",
     "a query that raises (C07's subject for the scipy backend) must still leave the state unchanged",
     "same question twice: values within 0.02 sigma / 2 % (matrices: 2 % of sqrt(C_ii C_jj)); profiles and contours compared point-wise at 1e-2",
@@ -79,11 +79,12 @@ def _check_invariant(fit, snap, ref, names, free, tag, after_exception=False):
     sd = np.where(snap["e"] > 0, snap["e"], 1.0)
     suffix = ":after-exception" if after_exception else ""
     fidx = [names.index(nm) for nm in free]
-    if np.any(np.abs(p - snap["p"])[fidx] > 0.02 * sd[fidx]) or np.any(p[[i for i in range(len(names)) if i not in fidx]] != snap["p"][[i for i in range(len(names)) if i not in fidx]]):
+    # "unchanged up to the minimizer tolerance": a minimiser that stops within 1e-3 in cost of the minimum is within 0.045 sigma of it
+    if np.any(np.abs(p - snap["p"])[fidx] > 0.05 * sd[fidx]) or np.any(p[[i for i in range(len(names)) if i not in fidx]] != snap["p"][[i for i in range(len(names)) if i not in fidx]]):
         raise Violation(f"values-moved{suffix}", f"{tag}: parameter values {snap['p'].tolist()} -> {p.tolist()} (sigma {snap['e'].tolist()})")
     if abs(c - snap["cost"]) > 1e-2:
         raise Violation(f"cost-moved{suffix}", f"{tag}: cost {snap['cost']!r} -> {c!r}")
-    # scipy backend: the covariance is recomputed with numdifftools at the (within 0.02 sigma) restored point; its step-size noise is a few per cent
+    # scipy backend: the covariance is recomputed with numdifftools at the (within the minimizer tolerance) restored point; its step-size noise is a few per cent
     # (root cause of KF-C07-3)
     etol = 0.05 if type(fit._fitter.minimizer).__name__ == "MinimizerScipyOptimize" else 0.02
     if np.any(np.abs(e - snap["e"])[fidx] > etol * sd[fidx]):
@@ -123,6 +124,8 @@ def run(case):
         raise Discard("no free parameter")
     backend = spec["minimizer"]
     kafe2 = fs.k("kafe2")
+    if ref.x_errors_too_large(tb):
+        raise Discard("x uncertainties exceed half the spacing of the points (jagged cost surface; not well-posed)")
     if ref.t in ("xy", "indexed") and spec.get("sources"):
         V0 = ref.total_cov(dict(spec["start"], **fixed_vals))
         ev0 = np.linalg.eigvalsh(V0)
